@@ -724,7 +724,7 @@ def run(tier):
         c = Case(c0.local, c0.zone, flat(items), nss); pl.fill([c])
         return c.full
 
-    ndis = nmon = known_hit = ninst = nrej_agree = 0
+    ndis = nmon = known_hit = ninst = nrej_agree = 0; rej_other = []
     distinct = {}; streams = {}; zones_seen = set()
     CH = 8000
     for k0 in range(0, len(allcases), CH):
@@ -740,7 +740,9 @@ def run(tier):
         ndis += len(dis); nmon += len(mon)
         known_hit += sum(1 for (c, m, i, mf) in mon if known_match(c, i, mf))
         for c, m, i in zip(cases, ml, il):
-            if c.stream == 'rejected' and m == i and dec_obs(i)[0] == 'reject': nrej_agree += 1
+            if c.stream == 'rejected':
+                if m == i and dec_obs(i)[0] == 'reject': nrej_agree += 1
+                elif len(rej_other) < 5: rej_other.append({'case': c.short(), 'spec': list(spec_verdict(c)), 'impl': i[:60]})
         for c in cases:
             if c.stream in ('structured', 'corpus') and nontrivial(c): distinct[c.key()] = 1
             streams[c.stream] = streams.get(c.stream, 0) + 1; zones_seen.add(c.zone); ninst += len(c.nss)
@@ -790,7 +792,7 @@ def run(tier):
                      extra_cov={'disagreements': ndis, 'monitor_failures': nmon, 'monitor_failures_matching_open_findings': known_hit,
                                 'streams': streams, 'anchor_histogram': hist, 'zones': len(zones_seen),
                                 'model_flag_strict': STRICT, 'rejected_stream_kinds': rej_kinds,
-                                'rejected_stream_rejected_by_model_and_code': nrej_agree,
+                                'rejected_stream_rejected_by_model_and_code': nrej_agree, 'rejected_stream_other_samples': rej_other,
                                 'instants': ninst, 'hypothesis_samples': pl.hyp_checked,
                                 'skipped_libc_percent_s_ambiguous': len(skipped)})
 
